@@ -111,8 +111,9 @@ static void *thread_main(void *arg) {
 static std::vector<asn_TYPE_descriptor_t *> type_menu() {
     std::vector<asn_TYPE_descriptor_t *> m;
     for(auto *t : pdu_types()) {
-        if(!fillable(t)) continue;
+        if(!fillable(t) && seed_value_texts(t).empty()) continue;   // open types cannot be random-filled: seed values from corpus/values
         int w = 1;
+        if(!fillable(t)) w = 3;
         std::string n = t->name;
         if(n == "Strs" || n == "Prims") w = 4;                     // time / REAL / OID helpers call into libc
         if(kind_constructed(kind_of(t))) w += 1;
@@ -136,7 +137,10 @@ static bool build_case(uint64_t run_seed, Case &c) {
     static const Syntax syns[] = {SY_DER, SY_OER, SY_UPER, SY_XER, SY_CXER};
     for(size_t i = 0; i < ninputs; i++) {
         Input in; in.td = pool[r.below(pool.size())];
-        void *st = random_value(in.td, r.next(), 8 + r.below(120));
+        void *st = nullptr;
+        { uint64_t vs = r.next(); size_t budget = 8 + r.below(120);
+          if(fillable(in.td)) st = random_value(in.td, vs, budget);
+          else { auto texts = seed_value_texts(in.td); if(!texts.empty()) st = value_from_xer(in.td, texts[vs % texts.size()]); } }
         if(!st) continue;
         for(Syntax sy : syns) { EncResult e = encode_to_vec(in.td, st, sy); if(!e.aborted && e.encoded >= 0 && e.out.size() <= 4096) { if(sy == SY_XER || sy == SY_CXER) xer_strip_trailing_ws(e.out); in.enc[sy] = e.out; } }
         if(in.enc.count(SY_DER)) {     // a BER variant of the same value: indefinite lengths, segmented strings, decimal / special REAL forms
